@@ -1,4 +1,4 @@
-import Xandikos.Theorems.C16
+import Xandikos.Theorems.C16Resolve
 #print axioms Xandikos.Theorems.C16.href_decodes
 #print axioms Xandikos.Theorems.C16.href_is_path_only
 #print axioms Xandikos.Theorems.C16.collection_href_ends_in_slash
@@ -11,3 +11,7 @@ import Xandikos.Theorems.C16
 #print axioms Xandikos.Py.Url.urlsplit_path_quote
 #print axioms Xandikos.Py.Path.split_join_of_getLast_ne
 #print axioms Xandikos.Theorems.C16.post_location_resolves
+#print axioms Xandikos.Theorems.C16.listed_member_href_resolves
+#print axioms Xandikos.Theorems.C16.every_listed_member_href_resolves
+#print axioms Xandikos.Theorems.C16.member_path_normalS
+#print axioms Xandikos.Theorems.C16.collection_path_no_trailing_slash
